@@ -570,3 +570,9 @@ func ifs(c bool, a, b string) string {
 	}
 	return b
 }
+
+// Exported accessors for other engines.
+func (o *Obs) RowCas() uint64      { return o.rowCas() }
+func (o *Obs) Present() bool       { return o.present() }
+func (o *Obs) HasBody() bool       { return o.hasBody() }
+func (o *Obs) Rev() (uint64, bool) { return o.rev() }
